@@ -48,6 +48,17 @@ def gen(rs: int, tier: str, index: int) -> dict:
             m.pop("ack", None)
             m.pop("save", None)
     from sim.rng import stream
+    rl = stream(rs, "c01labels")
+    if rl.random() < 0.2:
+        # typed labels on the messages, one of which a client-side pre_send middleware consumes (pops) after the kicker typed it,
+        # another one it adds: the receiver sees type information for a label that is not there, and a label without type information
+        s["config"]["client_label_adder"] = True
+        for m in s["messages"]:
+            if m.get("kind", "valid") == "valid" and rl.random() < 0.7:
+                m["labels"] = {"route": ["str", rl.choice(["fast", "slow"])], "prio": ["int", str(rl.randint(0, 9))]}
+                m["mw_pop_label"] = rl.choice(["route", "prio"])
+                if rl.random() < 0.5:
+                    m["mw_labels"] = {"origin": "api"}
     r = stream(rs, "c01late")
     if r.random() < 0.25 and s["messages"]:
         # a shared task that is registered only after the workers started (e.g. imported by a startup handler)
